@@ -185,26 +185,20 @@ def check_tree_valid(node, et, top=False):
         # descend: pair output children with shadow children; identity is not visible in the text, so
         # pair per name in order of the shadow's same-name insertion order (C12 says same-named keep
         # insertion order); only used to know whether a child is checked
-        byname = {}
-        for c in n.children:
-            byname.setdefault(c.name, []).append(c)
-        if sorted(k.tag for k in e) != sorted(c.name for c in n.children):
-            # the output does not hold exactly the shadow's children (a ghost or lost child: C06's business); which
-            # output element is which shadow child cannot be told, so nothing below this level is judged
+        # which output element is which shadow child: serialisation walks the element's own get_children(), so the
+        # k-th output child is the k-th element of that (public) view; an element that is not a shadow child (a ghost,
+        # a replaced-out child still being emitted) is C06's business and nothing below it is judged
+        try:
+            lib_kids = list(n.el.get_children())
+        except Exception:
             continue
-        used = {}
-        for k in e:
-            lst = byname.get(k.tag)
-            if not lst:
-                continue
-            i = used.get(k.tag, 0)
-            used[k.tag] = i + 1
-            if i < len(lst):
-                # if same-named children differ in checkedness we cannot know which is which: be
-                # conservative and treat as unchecked unless all same-named are checked
-                same = len({x.xsd_check for x in lst}) == 1
-                if same:
-                    st.append((lst[i], k, checked_here))
+        if len(lib_kids) != len(e):
+            continue
+        by_id = {id(c.el): c for c in n.children}
+        for lk, k in zip(lib_kids, e):
+            c = by_id.get(id(lk))
+            if c is not None and c.name == k.tag:
+                st.append((c, k, checked_here))
     return None
 
 
